@@ -37,6 +37,12 @@ func init() {
 		scs = append(scs, sc{"Refresh‖BulkRefresh", ref, []string{"set 1"}, [][]string{{"refresh 1 val"}, {"bulkrefresh 1,2 full"}}})
 		scs = append(scs, sc{"Refresh‖Refresh(absent)", ref, nil, [][]string{{"refresh 1 err"}, {"refresh 1 val"}}})
 		scs = append(scs, sc{"staleGet‖staleGet", ref, []string{"set 1", "adv 50"}, [][]string{{"load 1 val"}, {"load 1 val"}}})
+		// operations that leave the key as it is (cancelled computes, reads, quiet reads, deadline setters) must not
+		// disturb a flight: a later Get still joins it
+		for _, noop := range []string{"cc 1", "ciac 1", "cipc 1", "get 1", "getq 1", "sea 1 50"} {
+			scs = append(scs, sc{"Get‖" + noop + ";Get", plain, nil, [][]string{{"load 1 val"}, {noop, "load 1 val"}}})
+		}
+		scs = append(scs, sc{"BulkGet‖cc;Get", plain, nil, [][]string{{"bulk 1,2 full"}, {"cc 2", "load 2 val"}}})
 		for _, s := range scs {
 			// coarse: only the loader's environment points are preemptible -> all interleavings at that granularity
 			var need []string
@@ -79,8 +85,19 @@ func init() {
 				jobs = append(jobs, concJob("missLoad‖"+w+"/"+ex, plain, nil, [][]string{{"load 1 val"}, {w}}, or, "native", pb, false, 8, budget, need...))
 				jobs = append(jobs, concJob("reload‖"+w+"/"+ex, ref, []string{"set 1", "adv 50"}, [][]string{{"load 1 val"}, {w}}, or, "native", pb, false, 8, budget))
 				jobs = append(jobs, concJob("Refresh‖"+w+"/"+ex, ref, []string{"set 1"}, [][]string{{"refresh 1 val"}, {w}}, or, "native", pb, false, 8, budget))
+				// loads that end without a value (not found, error) must not undo the write either
+				for _, o := range []string{"nf", "err"} {
+					if !thorough && ex == "default" && o == "err" {
+						continue
+					}
+					jobs = append(jobs, concJob("missLoad("+o+")‖"+w+"/"+ex, plain, nil, [][]string{{"load 1 " + o}, {w}}, or, "native", pb, false, 8, budget))
+					jobs = append(jobs, concJob("reload("+o+")‖"+w+"/"+ex, ref, []string{"set 1", "adv 50"}, [][]string{{"load 1 " + o}, {w}}, or, "native", pb, false, 8, budget))
+					jobs = append(jobs, concJob("Refresh("+o+")‖"+w+"/"+ex, ref, []string{"set 1"}, [][]string{{"refresh 1 " + o}, {w}}, or, "native", pb, false, 8, budget))
+				}
 				if ex == "caller" {
 					jobs = append(jobs, concJob("BulkGet‖"+w+"/"+ex, plain, nil, [][]string{{"bulk 1,2 full"}, {w}}, or, "native", pb, false, 8, budget))
+					jobs = append(jobs, concJob("BulkGet(partial)‖"+w+"/"+ex, plain, nil, [][]string{{"bulk 2,1 partial"}, {w}}, or, "native", pb, false, 8, budget))
+					jobs = append(jobs, concJob("BulkGet(empty)‖"+w+"/"+ex, plain, nil, [][]string{{"bulk 1,2 empty"}, {w}}, or, "native", pb, false, 8, budget))
 				}
 			}
 			jobs = append(jobs, concJob("reload‖InvalidateAll/"+ex, ref, []string{"set 1", "adv 50"}, [][]string{{"load 1 val"}, {"invall"}}, or, "native", pb, false, 8, budget))
@@ -117,11 +134,15 @@ func init() {
 		jobs = append(jobs, concJob("L1:three-threads", l1, []string{"set 2"}, [][]string{{"set 1", "get 2"}, {"ci 1", "set 2"}, {"get 1", "get 2"}}, or, "native", pb, false, 16, budget, "histories-checked"))
 		// L2: while the table grows / shrinks (small-scope table, harness hashes)
 		spread := []uint64{hsh(0, 1), hsh(2, 2), hsh(4, 3), hsh(6, 4), hsh(0, 5), hsh(2, 6), hsh(1, 7), hsh(3, 8), hsh(1, 9), hsh(3, 10), hsh(5, 11)}
-		l2 := CacheCfg{Hashes: spread}
+		l2 := CacheCfg{Hashes: spread, InitCap: 1} // InitialCapacity 1 -> the minimal table (2 root buckets in the small-scope build)
 		fill8 := []string{"set 0", "set 1", "set 2", "set 3", "set 4", "set 6", "set 7", "set 8"}
-		jobs = append(jobs, concJob("L2:grow", l2, fill8, [][]string{{"set 5", "get 0"}, {"set 0", "get 5"}, {"inv 1", "get 1"}}, or, "small", pb, false, 16, budget, "histories-checked"))
+		jobs = append(jobs, concJob("L2:grow", l2, fill8, [][]string{{"set 5", "get 0"}, {"set 0", "get 5"}, {"inv 1", "get 1"}}, or, "small", pb, false, 16, budget, "histories-checked", "table-grew"))
+		// every writer reads its own key back: an update that lands in the abandoned table is then visible as a lost write
+		jobs = append(jobs, concJob("L2:grow-readback", l2, fill8, [][]string{{"set 5", "get 5"}, {"set 0", "get 0"}, {"inv 1", "get 1"}}, or, "small", pb, false, 16, budget, "histories-checked", "table-grew"))
+		jobs = append(jobs, concJob("L2:grow-compute-readback", l2, fill8, [][]string{{"cia 5", "get 5"}, {"cw 2", "get 2"}, {"sia 9", "get 9"}}, or, "small", pb, false, 16, budget, "histories-checked", "table-grew"))
 		shrinkSetup := append(append([]string{}, fill8...), "set 5", "inv 0", "inv 1", "inv 2", "inv 3", "inv 4", "inv 6", "inv 7", "inv 8")
-		jobs = append(jobs, concJob("L2:shrink", l2, shrinkSetup, [][]string{{"inv 5", "get 1"}, {"set 1", "get 5"}, {"cia 5", "get 1"}}, or, "small", pb, false, 16, budget, "histories-checked"))
+		jobs = append(jobs, concJob("L2:shrink", l2, shrinkSetup, [][]string{{"inv 5", "get 1"}, {"set 1", "get 5"}, {"cia 5", "get 1"}}, or, "small", pb, false, 16, budget, "histories-checked", "table-shrank"))
+		jobs = append(jobs, concJob("L2:shrink-readback", l2, shrinkSetup, [][]string{{"inv 5", "get 5"}, {"set 1", "get 1"}, {"set 6", "get 6"}}, or, "small", pb, false, 16, budget, "histories-checked", "table-shrank"))
 		// L3: the cache is evicting (automatic removals at the instant the atomic handler reports them)
 		for _, ex := range []string{"caller", "default"} {
 			l3 := CacheCfg{MaxSize: 2, Executor: ex}
